@@ -28,10 +28,19 @@ PROPS = {
     "C15": ("c15", "other", "AB", "ABCD"),
     "C16": ("c16", "proof", "AB", "ABCD"),
     "C17": ("c17", "other", "AB", "ABCD"),
-    "C18": ("c18", "other", "A", "AB"),
+    "C18": ("c18", "other", "AB", "ABCD"),
     "C19": ("c19", "other", "AB", "ABCD"),
     "C20": ("c20", "other", "B", "AB"),
 }
+
+
+def anchor_files(pid):
+    with open(os.path.join(os.path.dirname(os.path.dirname(os.path.abspath(__file__))), "properties.jsonl")) as f:
+        for line in f:
+            p = json.loads(line)
+            if p["id"] == pid:
+                return p.get("anchors", {}).get("files", [])
+    return []
 
 
 def run_property(pid, tier, allfacts, meta, seed=0):
@@ -44,6 +53,8 @@ def run_property(pid, tier, allfacts, meta, seed=0):
         mod.check(run, views, tier)
         from . import selfcheck
         selfcheck.run_selfchecks(run, pid, views)
+        from . import cfgcover
+        cfgcover.r_cfgcover(run, pid, views, anchor_files(pid))
     except Exception as e:  # fail closed: an engine crash is never a pass
         traceback.print_exc()
         run.cfg = None
